@@ -80,12 +80,32 @@ package symbols
 // ---- C10: an accepted struct type has well-shaped optional fields -------------------------------------------------
 // Conformance checking indexes both arguments of every fn:opt(...) of a struct type: the well-formedness check lets a
 // struct type pass only if each optional field is an application with exactly two arguments.
+// The two selectors split the slots of a struct type: every fn:opt(...) slot is an optional argument, every other slot a
+// required one, none is skipped and none is added (counted; each result element has the selected kind).
+//@ spec func isOpt(t ast.BaseTerm) bool = (t is ast.ApplyFn) && (t as ast.ApplyFn).Function.Symbol == Optional.Symbol
+//@ spec func countOpt(a []ast.BaseTerm, n int) int = n <= 0 ? 0 : countOpt(a, n-1) + (isOpt(a[n-1]) ? 1 : 0)
+//@ spec func slots(t ast.BaseTerm) []ast.BaseTerm = (t as ast.ApplyFn).Args
+// typeOp (four lines: the address of the function symbol of an application, nil for anything else) returns an interior
+// pointer, which the verifier does not model: its contract is ASSUMED.
+//@ func typeOp(typeExpr)
+//@   trusted
+//@   modifies nothing
+//@   ensures (typeExpr is ast.ApplyFn) ==> result != nil && result.Symbol == (typeExpr as ast.ApplyFn).Function.Symbol && result.Arity == (typeExpr as ast.ApplyFn).Function.Arity
+//@   ensures !(typeExpr is ast.ApplyFn) ==> result == nil
 //@ func StructTypeOptionaArgs(tpe)
-//@   trusted
 //@   modifies nothing
+//@   ensures err == nil && (tpe is ast.ApplyFn) ==> len(result) == countOpt(slots(tpe), len(slots(tpe)))
+//@   ensures forall k int :: 0 <= k && k < len(result) ==> isOpt(result[k])
+//@   loop 1 invariant 0 <= rangeindex + 1
+//@   loop 1 invariant (tpe is ast.ApplyFn) ==> rangeindex + 1 <= len(slots(tpe)) && len(optional) == countOpt(slots(tpe), rangeindex + 1)
+//@   loop 1 invariant forall k int :: 0 <= k && k < len(optional) ==> isOpt(optional[k])
 //@ func StructTypeRequiredArgs(tpe)
-//@   trusted
 //@   modifies nothing
+//@   ensures err == nil && (tpe is ast.ApplyFn) ==> len(result) == len(slots(tpe)) - countOpt(slots(tpe), len(slots(tpe)))
+//@   ensures forall k int :: 0 <= k && k < len(result) ==> !isOpt(result[k])
+//@   loop 1 invariant 0 <= rangeindex + 1
+//@   loop 1 invariant (tpe is ast.ApplyFn) ==> rangeindex + 1 <= len(slots(tpe)) && len(required) == rangeindex + 1 - countOpt(slots(tpe), rangeindex + 1)
+//@   loop 1 invariant forall k int :: 0 <= k && k < len(required) ==> !isOpt(required[k])
 //@ func WellformedType(ctx, expr)
 //@   opt nosafety
 //@   loop 2 invariant forall k int :: 0 <= k && k < rangeindex + 1 ==> optionalArgs[k] is ast.ApplyFn && len((optionalArgs[k] as ast.ApplyFn).Args) == 2
